@@ -672,6 +672,10 @@ def run(tier: str) -> int:
         # all-static tuples whose LAST member is a byte range starting at / around offset 256 (the suffix form of the slice)
         U.tup(U.sarray(U.BYTE, 256), U.sarray(U.BYTE, 4)), U.tup(U.sarray(U.BYTE, 255), U.sarray(U.BYTE, 4)),
         U.tup(A, A, A, A, A, A, A, A, A), U.tup(U.sarray(U.uint(64), 40), U.tup(U.uint(8), A)),
+        # tuples WITH a dynamic member whose LAST member is a static byte range (address, byte[n], T[n], static tuple) behind a static
+        # member: the slice must stop at the end of the head, not run on into the tail section
+        U.tup(S, U.uint(8), A), U.tup(S, U.uint(64), U.sarray(U.BYTE, 4)), U.tup(U.darray(U.uint(8)), U.uint(16), U.tup(U.uint(8), U.uint(8))),
+        U.tup(U.uint(8), S, U.uint(16), U.sarray(U.uint(16), 3)), U.tup(S, U.uint(8), B, A), U.tup(S, S, U.sarray(U.BYTE, 2), U.tup(A, U.uint(8))),
         U.tup(U.sarray(U.BYTE, 1000), U.uint(64), A), U.sarray(U.tup(A, A, A, A, A, A, A, A, A), 2),
         U.sarray(U.tup(B, S), 3), U.darray(U.tup(B, U.darray(U.uint(16)))), U.darray(U.darray(S)),
         U.sarray(B, 17), U.darray(B), U.sarray(U.sarray(B, 3), 3), U.darray(U.sarray(B, 9)),
